@@ -176,6 +176,15 @@ fn boundary_values(orig: &BigUint, is_hex: bool, int_max: u64) -> Vec<(String, B
             }
         }
     }
+    if is_hex {
+        // exponent aliases: 2^x is the same field element for x and x + k*ord(2)
+        for m in [1u8, 7] {
+            let x = orig + vcommon::ord2() * BigUint::from(m);
+            if x < vcommon::prime() {
+                v.push((format!("+{m}*ord(2)"), x));
+            }
+        }
+    }
     if !is_hex {
         v.retain(|(_, x)| *x <= BigUint::from(int_max));
     }
